@@ -87,7 +87,7 @@ pub fn gen_dp_query(r: &mut Rng, w: &DpWorld) -> DpQuery {
     let mut feats: Vec<&'static str> = vec![];
     let users = w.cat.table("users").unwrap();
     let city_public = users.cols[users.col("city").unwrap()].finite_values();
-    let shape = r.below(16);
+    let shape = r.below(20);
     let (from, num_cols, keys): (String, Vec<(&str, bool)>, Vec<(&str, bool)>) = match shape {
         0 | 1 | 2 => (
             "orders".into(),
@@ -163,6 +163,29 @@ pub fn gen_dp_query(r: &mut Rng, w: &DpWorld) -> DpQuery {
                 vec![("u.tier", true)],
             )
         }
+        16 => {
+            // outer joins of protected tables: the preserved rows of the side that does not give the unit
+            // carry a NULL privacy unit
+            feats.push("outer_join_protected");
+            (
+                "users AS u RIGHT JOIN orders AS o ON u.id = o.user_id AND u.tier = 1".into(),
+                vec![("o.amount", true), ("o.qty", false), ("o.adj", false)],
+                vec![("o.status", true)],
+            )
+        }
+        17 => {
+            feats.push("outer_join_protected");
+            (
+                "users AS u FULL JOIN orders AS o ON u.id = o.user_id AND o.qty > 2".into(),
+                vec![("o.amount", true), ("o.qty", false), ("u.age", true)],
+                vec![("o.status", true), ("u.tier", true)],
+            )
+        }
+        18 | 19 => {
+            // the privacy unit is a plain, non-unique column of the table
+            feats.push("direct_nonunique_unit");
+            ("visits".into(), vec![("x", true)], vec![("city", city_public), ("uid", false)])
+        }
         10 => {
             feats.push("derived");
             (
@@ -232,7 +255,19 @@ pub fn gen_dp_query(r: &mut Rng, w: &DpWorld) -> DpQuery {
 /// Queries for privacy-unit-preserving rewriting (no final aggregation required)
 pub fn gen_pup_query(r: &mut Rng, _w: &DpWorld) -> DpQuery {
     let mut feats: Vec<&'static str> = vec![];
-    let sql = match r.below(21) {
+    let sql = match r.below(24) {
+        21 => {
+            feats.push("direct_nonunique_unit");
+            "SELECT uid, city, x FROM visits".to_string()
+        }
+        22 => {
+            feats.push("join_direct_unit");
+            "SELECT v.city AS city, v.x AS x, u.age AS age FROM visits AS v JOIN users AS u ON v.uid = u.id".to_string()
+        }
+        23 => {
+            feats.push("direct_unit_per_unit_aggregation");
+            "SELECT uid, COUNT(*) AS n, SUM(x) AS s FROM visits GROUP BY uid".to_string()
+        }
         17 => {
             feats.push("left_join_pup_pup_nonkey");
             "SELECT a.id AS aid, b.id AS bid, b.amount AS bamount FROM orders AS a LEFT JOIN orders AS b ON a.qty = b.qty".to_string()
